@@ -111,6 +111,16 @@ def step (s : DSt) (line : String) : DSt × Option String :=
     | .mem m => let m' := (m.append (nat! r)).1; (setInst s (.mem m') offs, some s!"pubdead n={m'.events.length} perr=0 handler=0")
     | .sql q => (s, some s!"pubdead n={q.rows.length} perr=1 handler=0")
     | .ds _ => (s, some "pubdead skip")
+  | ["pubdeadnotify", r] =>
+    -- like pubdead, but the persistence error handler publishes record r+1 on the same bus (with a live context): the
+    -- memory store records r and reports nothing; the SQLite store refuses r (one report), then r+1 is recorded and
+    -- delivered – the handler of r+1 sees the log ending in r+1
+    let s := { s with buses := s.cur :: s.buses }
+    let (i, offs) := getInst s
+    match i with
+    | .mem m => let m' := (m.append (nat! r)).1; (setInst s (.mem m') offs, some s!"pubdeadnotify n={m'.events.length} perr=0 seen=handler-not-run")
+    | .sql q => let q' := (q.append (nat! r + 1)).1; (setInst s (.sql q') offs, some s!"pubdeadnotify n={q'.rows.length} perr=1 seen=n={q'.rows.length},last={nat! r + 1}")
+    | .ds _ => (s, some "pubdeadnotify skip")
   | ["pubflaky", r] =>
     -- durable-streams only: the server stores the event, the acknowledgement is lost: one record, one failure report
     let s := { s with buses := s.cur :: s.buses }
